@@ -100,6 +100,25 @@ func genCaseC01(t *rapid.T) *Case {
 		// given a value too): the data is that of THIS request's variables
 		c.PrimeVars = AltVars(t, s, d, "prime")
 	}
+	if rapid.IntRange(0, 3).Draw(t, "failingResolvers") == 0 {
+		// some resolvers fail: the selected response key is still there, holding null, next to its
+		// siblings (the errors themselves are C06's subject)
+		for i := 0; i < rapid.IntRange(1, 3).Draw(t, "nFailing"); i++ {
+			n := g.Nodes[rapid.IntRange(0, len(g.Nodes)-1).Draw(t, fmt.Sprintf("fail%dnode", i))]
+			if n.Type == "" || (c.Assign[n.ID] != "R" && c.Assign[n.ID] != "A") {
+				continue
+			}
+			fs := s.Type(n.Type).Fields
+			f := fs[rapid.IntRange(0, len(fs)-1).Draw(t, fmt.Sprintf("fail%dfield", i))]
+			dup := false
+			for _, e := range c.Faults {
+				dup = dup || (e.Node == n.ID && e.Field == f.Name)
+			}
+			if !dup {
+				c.Faults = append(c.Faults, hx.Fault{Node: n.ID, Field: f.Name, Kind: "err"})
+			}
+		}
+	}
 	// operation name
 	var names []string
 	for _, o := range d.Ops {
